@@ -36,7 +36,10 @@ type Owner struct {
 	// belongs to, second flavour: value foreign key and value field
 	ChiefID uint
 	Chief   Chief
-	Tags    []*Tag `gorm:"many2many:owner_tags"` // many to many
+	// string-keyed targets: keys that differ only in letter case are different records
+	Parts []Part  `gorm:"foreignKey:OwnerID"`    // has many, children with a string primary key
+	Langs []*Lang `gorm:"many2many:owner_langs"` // many to many, string primary key
+	Tags  []*Tag  `gorm:"many2many:owner_tags"`  // many to many
 }
 
 type One struct {
@@ -68,6 +71,17 @@ type Chief struct {
 	Name string
 }
 
+type Part struct {
+	Code    string `gorm:"primaryKey"`
+	Name    string
+	OwnerID *uint
+}
+
+type Lang struct {
+	Code string `gorm:"primaryKey"`
+	Name string
+}
+
 type Tag struct {
 	ID   uint `gorm:"primaryKey"`
 	Name string
@@ -80,6 +94,8 @@ func (Note) TableName() string  { return "notes" }
 func (Boss) TableName() string  { return "bosses" }
 func (Tag) TableName() string   { return "tags" }
 func (Chief) TableName() string { return "chiefs" }
+func (Part) TableName() string  { return "parts" }
+func (Lang) TableName() string  { return "langs" }
 
 const (
 	hasOne    = "has-one"
@@ -94,15 +110,20 @@ type relSpec struct {
 	Kind  string
 	Table string
 	Elem  reflect.Type
+	Str   bool   // string primary key "Code" instead of the integer "ID"
+	Join  string // join table (many to many)
+	JoinC string // target column of the join table
 }
 
 var rels = []relSpec{
-	{"One", hasOne, "ones", reflect.TypeOf(One{})},
-	{"Many", hasMany, "manies", reflect.TypeOf(Many{})},
-	{"Notes", poly, "notes", reflect.TypeOf(Note{})},
-	{"Boss", belongsTo, "bosses", reflect.TypeOf(Boss{})},
-	{"Tags", m2m, "tags", reflect.TypeOf(Tag{})},
-	{"Chief", belongsTo, "chiefs", reflect.TypeOf(Chief{})},
+	{Name: "One", Kind: hasOne, Table: "ones", Elem: reflect.TypeOf(One{})},
+	{Name: "Many", Kind: hasMany, Table: "manies", Elem: reflect.TypeOf(Many{})},
+	{Name: "Notes", Kind: poly, Table: "notes", Elem: reflect.TypeOf(Note{})},
+	{Name: "Boss", Kind: belongsTo, Table: "bosses", Elem: reflect.TypeOf(Boss{})},
+	{Name: "Tags", Kind: m2m, Table: "tags", Elem: reflect.TypeOf(Tag{}), Join: "owner_tags", JoinC: "tag_id"},
+	{Name: "Chief", Kind: belongsTo, Table: "chiefs", Elem: reflect.TypeOf(Chief{})},
+	{Name: "Parts", Kind: hasMany, Table: "parts", Elem: reflect.TypeOf(Part{}), Str: true},
+	{Name: "Langs", Kind: m2m, Table: "langs", Elem: reflect.TypeOf(Lang{}), Str: true, Join: "owner_langs", JoinC: "lang_code"},
 }
 
 func relByName(n string) relSpec {
@@ -121,6 +142,35 @@ func (r relSpec) single() bool   { return r.Kind == hasOne || r.Kind == belongsT
 
 const poolSize = 4 // saved targets per table at the start (keys 1..4)
 
+// String-keyed relations: the model works with integer handles; codeOf(handle) is the
+// stored key. Handles 1..4 are the seeded rows, later handles are the keys new targets
+// get, in this order: first the ones that differ from an existing key only in letter case.
+var strCodes = func() []string {
+	c := []string{"go", "GO", "a_b", "nil", "Go", "gO", "A_B", "NIL", "Nil", "a_B", "nIL"}
+	for i := 1; i <= 40; i++ {
+		c = append(c, fmt.Sprintf("kz%d", i), fmt.Sprintf("KZ%d", i), fmt.Sprintf("Kz%d", i))
+	}
+	return c
+}()
+
+var strHandles = func() map[string]uint {
+	m := map[string]uint{}
+	for i, c := range strCodes {
+		m[c] = uint(i + 1)
+	}
+	return m
+}()
+
+func codeOf(h uint) string { return strCodes[h-1] }
+
+// keyText renders a target handle the way the database dump shows the key.
+func (r relSpec) keyText(h uint) string {
+	if r.Str {
+		return codeOf(h)
+	}
+	return fmt.Sprint(h)
+}
+
 // Setup is everything fixed before the first operation.
 type Setup struct {
 	Kind     string // relation name the history stays on, or "mixed"
@@ -130,19 +180,23 @@ type Setup struct {
 	PtrElems bool   // the slice is []*Owner instead of []Owner
 	Preload  bool   // in-memory owners start with seeded links, loaded with Preload
 	// seeded links (plain SQL, before the first operation)
-	FK    map[string][]string // relation -> holder of target 1..poolSize ("" | "owners/2" | "others/1")
-	BT    map[string][]uint   // belongs-to relation -> target of owner 1..NOwners (0 = none)
-	Pairs [][2]uint           // (owner, tag)
+	FK    map[string][]string  // relation -> holder of target 1..poolSize ("" | "owners/2" | "others/1")
+	BT    map[string][]uint    // belongs-to relation -> target of owner 1..NOwners (0 = none)
+	Pairs map[string][][2]uint // many-to-many relation -> (owner, target)
 }
 
 // Val names one value handed to gorm: a fresh copy of a saved target, or a new unsaved one.
 type Val struct {
-	ID  uint
-	New string
+	ID   uint
+	New  string
+	Code string // key of a new string-keyed target
 }
 
 func (v Val) String() string {
 	if v.New != "" {
+		if v.Code != "" {
+			return "new(" + v.New + " key " + v.Code + ")"
+		}
 		return "new(" + v.New + ")"
 	}
 	return fmt.Sprintf("#%d", v.ID)
@@ -189,25 +243,25 @@ func (su Setup) String() string {
 			fk = append(fk, r.Name+"="+strings.Join(su.FK[r.Name], "|"))
 		}
 	}
-	return fmt.Sprintf("kind=%s owners=%d mem=%v mode=%s preload=%v seed{%s boss=%v chief=%v tags=%v}",
-		su.Kind, su.NOwners, su.Mem, mode, su.Preload, strings.Join(fk, " "), su.BT["Boss"], su.BT["Chief"], su.Pairs)
+	return fmt.Sprintf("kind=%s owners=%d mem=%v mode=%s preload=%v seed{%s boss=%v chief=%v tags=%v langs=%v}",
+		su.Kind, su.NOwners, su.Mem, mode, su.Preload, strings.Join(fk, " "), su.BT["Boss"], su.BT["Chief"], su.Pairs["Tags"], su.Pairs["Langs"])
 }
 
 // ---- reference model ------------------------------------------------------------------------------
 
 type model struct {
 	nOwners int
-	rows    map[string]map[uint]string // relation -> target key -> name (rows that exist)
-	holder  map[string]map[uint]string // fk-family relation -> target key -> holder ("" = no link)
-	boss    map[string]map[uint]uint   // belongs-to relation -> owner -> target (0 = none)
-	pairs   map[[2]uint]bool           // (owner, tag)
+	rows    map[string]map[uint]string  // relation -> target key -> name (rows that exist)
+	holder  map[string]map[uint]string  // fk-family relation -> target key -> holder ("" = no link)
+	boss    map[string]map[uint]uint    // belongs-to relation -> owner -> target (0 = none)
+	pairs   map[string]map[[2]uint]bool // many-to-many relation -> (owner, target)
 }
 
 func ownersHolder(o uint) string { return fmt.Sprintf("owners/%d", o) }
 
 func newModel(su Setup) *model {
 	m := &model{nOwners: su.NOwners, rows: map[string]map[uint]string{}, holder: map[string]map[uint]string{},
-		boss: map[string]map[uint]uint{"Boss": {}, "Chief": {}}, pairs: map[[2]uint]bool{}}
+		boss: map[string]map[uint]uint{"Boss": {}, "Chief": {}}, pairs: map[string]map[[2]uint]bool{"Tags": {}, "Langs": {}}}
 	for _, r := range rels {
 		m.rows[r.Name] = map[uint]string{}
 		if r.fkFamily() {
@@ -225,8 +279,10 @@ func newModel(su Setup) *model {
 			m.boss[rn][uint(i+1)] = b
 		}
 	}
-	for _, p := range su.Pairs {
-		m.pairs[p] = true
+	for rn, ps := range su.Pairs {
+		for _, p := range ps {
+			m.pairs[rn][p] = true
+		}
 	}
 	return m
 }
@@ -259,7 +315,7 @@ func (m *model) linked(r relSpec, owners []uint) []uint {
 			}
 		}
 	default:
-		for p := range m.pairs {
+		for p := range m.pairs[r.Name] {
 			for _, o := range owners {
 				if p[0] == o {
 					out = append(out, p[1])
@@ -380,13 +436,13 @@ func (m *model) apply(s Step, mem []uint, args [][]uint) {
 			for i, o := range mem {
 				keep := map[uint]bool{}
 				for _, t := range args[i] {
-					m.pairs[[2]uint{o, t}] = true
+					m.pairs[r.Name][[2]uint{o, t}] = true
 					keep[t] = true
 				}
 				if s.Act == "replace" {
-					for p := range m.pairs {
+					for p := range m.pairs[r.Name] {
 						if p[0] == o && !keep[p[1]] {
-							delete(m.pairs, p)
+							delete(m.pairs[r.Name], p)
 						}
 					}
 				}
@@ -394,13 +450,13 @@ func (m *model) apply(s Step, mem []uint, args [][]uint) {
 		case "delete":
 			for _, t := range args[0] {
 				for _, o := range mem {
-					delete(m.pairs, [2]uint{o, t})
+					delete(m.pairs[r.Name], [2]uint{o, t})
 				}
 			}
 		case "clear":
-			for p := range m.pairs {
+			for p := range m.pairs[r.Name] {
 				if contains(mem, p[0]) {
-					delete(m.pairs, p)
+					delete(m.pairs[r.Name], p)
 				}
 			}
 		}
@@ -411,34 +467,46 @@ func (m *model) apply(s Step, mem []uint, args [][]uint) {
 func (m *model) render() string {
 	var b strings.Builder
 	for _, r := range rels {
-		fmt.Fprintf(&b, "%s:", r.Table)
+		var es []string
 		for _, t := range sortedKeys(m.rows[r.Name]) {
 			if r.fkFamily() {
 				h := m.holder[r.Name][t]
 				if h == "" {
 					h = "-"
 				}
-				fmt.Fprintf(&b, " %d=%s>%s", t, m.rows[r.Name][t], h)
+				es = append(es, fmt.Sprintf(" %s=%s>%s", r.keyText(t), m.rows[r.Name][t], h))
 			} else {
-				fmt.Fprintf(&b, " %d=%s", t, m.rows[r.Name][t])
+				es = append(es, fmt.Sprintf(" %s=%s", r.keyText(t), m.rows[r.Name][t]))
 			}
 		}
-		b.WriteString("\n")
+		if r.Str {
+			sort.Strings(es)
+		}
+		b.WriteString(r.Table + ":" + strings.Join(es, "") + "\n")
 	}
 	b.WriteString("owners:")
 	for o := uint(1); o <= uint(m.nOwners); o++ {
 		fmt.Fprintf(&b, " %d=o%d>boss/%d>chief/%d", o, o, m.boss["Boss"][o], m.boss["Chief"][o])
 	}
-	b.WriteString("\nowner_tags:")
-	var ps [][2]uint
-	for p := range m.pairs {
-		ps = append(ps, p)
-	}
-	sort.Slice(ps, func(i, j int) bool { return ps[i][0] < ps[j][0] || ps[i][0] == ps[j][0] && ps[i][1] < ps[j][1] })
-	for _, p := range ps {
-		fmt.Fprintf(&b, " %d-%d", p[0], p[1])
-	}
 	b.WriteString("\n")
+	for _, r := range rels {
+		if r.Kind != m2m {
+			continue
+		}
+		var ps [][2]uint
+		for p := range m.pairs[r.Name] {
+			ps = append(ps, p)
+		}
+		sort.Slice(ps, func(i, j int) bool { return ps[i][0] < ps[j][0] || ps[i][0] == ps[j][0] && ps[i][1] < ps[j][1] })
+		var es []string
+		for _, p := range ps {
+			es = append(es, fmt.Sprintf(" %d-%s", p[0], r.keyText(p[1])))
+		}
+		if r.Str {
+			sort.Strings(es)
+		}
+		b.WriteString(r.Join + ":" + strings.Join(es, "") + "\n")
+	}
 	return b.String()
 }
 
@@ -449,11 +517,11 @@ var ddlCache []string
 func openDB(su Setup) *testdb.DB {
 	d := testdb.Open(testdb.Options{Config: gorm.Config{DisableForeignKeyConstraintWhenMigrating: true}})
 	if ddlCache == nil {
-		if err := d.AutoMigrate(&Owner{}, &One{}, &Many{}, &Note{}, &Boss{}, &Tag{}, &Chief{}); err != nil {
+		if err := d.AutoMigrate(&Owner{}, &One{}, &Many{}, &Note{}, &Boss{}, &Tag{}, &Chief{}, &Part{}, &Lang{}); err != nil {
 			panic("harness: migrate: " + err.Error())
 		}
 		var stmts []string
-		if err := d.Raw("SELECT sql FROM sqlite_master WHERE sql IS NOT NULL AND name NOT LIKE 'sqlite_%' ORDER BY rowid").Scan(&stmts).Error; err != nil || len(stmts) < 8 {
+		if err := d.Raw("SELECT sql FROM sqlite_master WHERE sql IS NOT NULL AND name NOT LIKE 'sqlite_%' ORDER BY rowid").Scan(&stmts).Error; err != nil || len(stmts) < 11 {
 			panic(fmt.Sprintf("harness: capture ddl: %v %v", err, stmts))
 		}
 		ddlCache = stmts
@@ -492,14 +560,23 @@ func openDB(su Setup) *testdb.DB {
 				if h != "" {
 					fk = strings.Split(h, "/")[1]
 				}
-				fmt.Fprintf(&q, "INSERT INTO %s (id, name, owner_id) VALUES (%d, '%s', %s);\n", r.Table, id, name, fk)
+				if r.Str {
+					fmt.Fprintf(&q, "INSERT INTO %s (code, name, owner_id) VALUES ('%s', '%s', %s);\n", r.Table, codeOf(uint(id)), name, fk)
+				} else {
+					fmt.Fprintf(&q, "INSERT INTO %s (id, name, owner_id) VALUES (%d, '%s', %s);\n", r.Table, id, name, fk)
+				}
+			case r.Str:
+				fmt.Fprintf(&q, "INSERT INTO %s (code, name) VALUES ('%s', '%s');\n", r.Table, codeOf(uint(id)), name)
 			default:
 				fmt.Fprintf(&q, "INSERT INTO %s (id, name) VALUES (%d, '%s');\n", r.Table, id, name)
 			}
 		}
 	}
-	for _, p := range su.Pairs {
+	for _, p := range su.Pairs["Tags"] {
 		fmt.Fprintf(&q, "INSERT INTO owner_tags (owner_id, tag_id) VALUES (%d, %d);\n", p[0], p[1])
+	}
+	for _, p := range su.Pairs["Langs"] {
+		fmt.Fprintf(&q, "INSERT INTO owner_langs (owner_id, lang_code) VALUES (%d, '%s');\n", p[0], codeOf(p[1]))
 	}
 	if _, err := d.SQL.Exec(q.String()); err != nil {
 		panic("harness: seed: " + err.Error() + "\n" + q.String())
@@ -516,6 +593,9 @@ UNION ALL SELECT 4, id, name, 0, '' FROM tags
 UNION ALL SELECT 5, id, name, 0, '' FROM chiefs
 UNION ALL SELECT 6, id, name, coalesce(boss_id, 0), cast(coalesce(chief_id, 0) AS text) FROM owners
 UNION ALL SELECT 7, owner_id, '', tag_id, '' FROM owner_tags
+UNION ALL SELECT 8, 0, name, coalesce(owner_id, 0), code FROM parts
+UNION ALL SELECT 9, 0, name, 0, code FROM langs
+UNION ALL SELECT 10, owner_id, '', 0, lang_code FROM owner_langs
 ORDER BY 1, 2, 4`
 
 // dump reads every table with plain SQL and renders it like model.render.
@@ -528,12 +608,28 @@ func dump(d *testdb.DB) string {
 	}
 	defer rows.Close()
 	parts := make([]strings.Builder, 8)
+	strParts := make([][]string, 11)
 	for rows.Next() {
 		var tbl int
 		var id, fk uint
 		var name, typ string
 		if err := rows.Scan(&tbl, &id, &name, &fk, &typ); err != nil {
 			panic("harness: dump scan: " + err.Error())
+		}
+		if tbl >= 8 { // string-keyed tables: entries are sorted as text, like model.render does
+			e := ""
+			switch {
+			case tbl == 8 && fk == 0:
+				e = fmt.Sprintf(" %s=%s>-", typ, name)
+			case tbl == 8:
+				e = fmt.Sprintf(" %s=%s>owners/%d", typ, name, fk)
+			case tbl == 9:
+				e = fmt.Sprintf(" %s=%s", typ, name)
+			default:
+				e = fmt.Sprintf(" %d-%s", id, typ)
+			}
+			strParts[tbl] = append(strParts[tbl], e)
+			continue
 		}
 		b := &parts[tbl]
 		switch tbl {
@@ -558,8 +654,16 @@ func dump(d *testdb.DB) string {
 		}
 	}
 	var out strings.Builder
-	for i, n := range []string{"ones", "manies", "notes", "bosses", "tags", "chiefs", "owners", "owner_tags"} {
-		out.WriteString(n + ":" + parts[i].String() + "\n")
+	for _, t := range []struct {
+		n string
+		i int
+	}{{"ones", 0}, {"manies", 1}, {"notes", 2}, {"bosses", 3}, {"tags", 4}, {"chiefs", 5}, {"parts", 8}, {"langs", 9}, {"owners", 6}, {"owner_tags", 7}, {"owner_langs", 10}} {
+		if t.i >= 8 {
+			sort.Strings(strParts[t.i])
+			out.WriteString(t.n + ":" + strings.Join(strParts[t.i], "") + "\n")
+		} else {
+			out.WriteString(t.n + ":" + parts[t.i].String() + "\n")
+		}
 	}
 	return out.String()
 }
@@ -567,17 +671,21 @@ func dump(d *testdb.DB) string {
 // ---- executing a history ----------------------------------------------------------------------------
 
 type hist struct {
-	d      *testdb.DB
-	su     Setup
-	m      *model
-	single *Owner   // single mode: the one owner object that receives every operation
-	vals   []Owner  // slice mode, []Owner
-	ptrs   []*Owner // slice mode, []*Owner
-	newSeq int
+	d       *testdb.DB
+	su      Setup
+	m       *model
+	single  *Owner   // single mode: the one owner object that receives every operation
+	vals    []Owner  // slice mode, []Owner
+	ptrs    []*Owner // slice mode, []*Owner
+	newSeq  int
+	nextStr map[string]uint // next unused handle of a string-keyed relation
+	// oneUnlinked: the last has-one call of the history was a Delete or Clear (mixed histories
+	// then try a belongs-to Clear more often: the shape of the repaired hasone-zero-pointer finding)
+	oneUnlinked bool
 }
 
 func start(su Setup) *hist {
-	h := &hist{su: su, m: newModel(su)}
+	h := &hist{su: su, m: newModel(su), nextStr: map[string]uint{"Parts": poolSize + 1, "Langs": poolSize + 1}}
 	h.d = openDB(su)
 	load := func(id uint) *Owner {
 		o := &Owner{}
@@ -637,13 +745,21 @@ func (h *hist) fresh(r relSpec, v Val) reflect.Value {
 	p := reflect.New(r.Elem)
 	if v.New != "" {
 		p.Elem().FieldByName("Name").SetString(v.New)
+		if v.Code != "" {
+			p.Elem().FieldByName("Code").SetString(v.Code)
+		}
 		return p
 	}
 	h.d.Rec.Pause()
-	err := h.d.First(p.Interface(), v.ID).Error
+	var err error
+	if r.Str {
+		err = h.d.First(p.Interface(), "code = ?", codeOf(v.ID)).Error
+	} else {
+		err = h.d.First(p.Interface(), v.ID).Error
+	}
 	h.d.Rec.Resume()
 	if err != nil {
-		panic(fmt.Sprintf("harness: load %s %d: %v", r.Table, v.ID, err))
+		panic(fmt.Sprintf("harness: load %s %s: %v", r.Table, r.keyText(v.ID), err))
 	}
 	return p
 }
@@ -681,6 +797,22 @@ func (h *hist) pack(r relSpec, vs []Val, form string) []interface{} {
 	}
 }
 
+// handleOf reads the key of a target struct (0 = zero key; an unknown string key gets a
+// handle no model entry has).
+func handleOf(v reflect.Value, r relSpec) uint {
+	if !r.Str {
+		return uint(v.FieldByName("ID").Uint())
+	}
+	c := v.FieldByName("Code").String()
+	if c == "" {
+		return 0
+	}
+	if h, ok := strHandles[c]; ok {
+		return h
+	}
+	return 999999
+}
+
 // fieldKeys: the distinct non-zero keys of the records the owner's in-memory relation field holds.
 func fieldKeys(o *Owner, r relSpec) []uint {
 	f := reflect.ValueOf(o).Elem().FieldByName(r.Name)
@@ -692,7 +824,7 @@ func fieldKeys(o *Owner, r relSpec) []uint {
 			}
 			v = v.Elem()
 		}
-		if id := uint(v.FieldByName("ID").Uint()); id != 0 {
+		if id := handleOf(v, r); id != 0 {
 			out = append(out, id)
 		}
 	}
@@ -717,7 +849,7 @@ func (h *hist) knownClass(s Step) string {
 		for i, o := range h.su.Mem {
 			for j := range h.su.Mem {
 				for _, v := range s.Args[j] {
-					if j == i || v.ID == 0 || !h.m.pairs[[2]uint{o, v.ID}] {
+					if j == i || v.ID == 0 || !h.m.pairs[r.Name][[2]uint{o, v.ID}] {
 						continue
 					}
 					own := false
@@ -852,7 +984,15 @@ func (h *hist) step(s Step) string {
 			if v.New != "" {
 				var ids []uint
 				h.d.Rec.Pause()
-				h.d.Raw("SELECT id FROM "+r.Table+" WHERE name = ?", v.New).Scan(&ids)
+				if r.Str {
+					var codes []string
+					h.d.Raw("SELECT code FROM "+r.Table+" WHERE name = ?", v.New).Scan(&codes)
+					for _, c := range codes {
+						ids = append(ids, strHandles[c]) // 0 for a key nobody chose
+					}
+				} else {
+					h.d.Raw("SELECT id FROM "+r.Table+" WHERE name = ?", v.New).Scan(&ids)
+				}
 				h.d.Rec.Resume()
 				if s.Act == "delete" {
 					if len(ids) != 0 {
@@ -864,7 +1004,10 @@ func (h *hist) step(s Step) string {
 					return fail("new target %s is stored %d times", v.New, len(ids))
 				}
 				if _, ok := h.m.rows[r.Name][ids[0]]; ok {
-					return fail("new target %s took the key %d of an existing row", v.New, ids[0])
+					return fail("new target %s took the key %s of an existing row", v.New, r.keyText(ids[0]))
+				}
+				if r.Str && codeOf(ids[0]) != v.Code {
+					return fail("new target %s is stored under key %q instead of %q", v.New, codeOf(ids[0]), v.Code)
 				}
 				id = ids[0]
 				h.m.rows[r.Name][id] = v.New
@@ -914,7 +1057,7 @@ func (h *hist) step(s Step) string {
 	}
 	var found []uint
 	for i := 0; i < out.Elem().Len(); i++ {
-		found = append(found, uint(out.Elem().Index(i).FieldByName("ID").Uint()))
+		found = append(found, handleOf(out.Elem().Index(i), r))
 	}
 	sort.Slice(found, func(i, j int) bool { return found[i] < found[j] })
 	if !okCounts[len(found)] || fmt.Sprint(distinct(found)) != fmt.Sprint(distinct(existing)) {
@@ -945,7 +1088,7 @@ func indent(s string) string {
 
 func genSetup(rt *rapid.T) Setup {
 	su := Setup{}
-	su.Kind = rapid.SampledFrom([]string{"One", "Many", "Notes", "Boss", "Chief", "Tags", "mixed"}).Draw(rt, "kind")
+	su.Kind = rapid.SampledFrom([]string{"One", "Many", "Notes", "Boss", "Chief", "Tags", "Parts", "Langs", "Parts", "Langs", "mixed", "mixed"}).Draw(rt, "kind")
 	su.NOwners = rapid.IntRange(1, 3).Draw(rt, "owners")
 	su.Slice = rapid.IntRange(0, 2).Draw(rt, "mode") == 0
 	if su.Slice {
@@ -997,10 +1140,13 @@ func genSetup(rt *rapid.T) Setup {
 			su.BT[rn] = append(su.BT[rn], b)
 		}
 	}
-	for _, o := range holders {
-		for t := uint(1); t <= poolSize; t++ {
-			if rapid.IntRange(0, 3).Draw(rt, "seed.pair") == 0 {
-				su.Pairs = append(su.Pairs, [2]uint{o, t})
+	su.Pairs = map[string][][2]uint{}
+	for _, rn := range []string{"Tags", "Langs"} {
+		for _, o := range holders {
+			for t := uint(1); t <= poolSize; t++ {
+				if rapid.IntRange(0, 3).Draw(rt, "seed.pair") == 0 {
+					su.Pairs[rn] = append(su.Pairs[rn], [2]uint{o, t})
+				}
 			}
 		}
 	}
@@ -1020,12 +1166,17 @@ func (h *hist) genStep(rt *rapid.T, allowUnscoped bool) (Step, stepInfo) {
 	s := Step{}
 	info := stepInfo{}
 	if h.su.Kind == "mixed" {
-		s.Rel = rapid.SampledFrom([]string{"One", "Many", "Notes", "Boss", "Chief", "Tags"}).Draw(rt, "rel")
+		s.Rel = rapid.SampledFrom([]string{"One", "Many", "Notes", "Boss", "Chief", "Tags", "Parts", "Langs"}).Draw(rt, "rel")
 	} else {
 		s.Rel = h.su.Kind
 	}
 	r := relByName(s.Rel)
 	s.Act = rapid.SampledFrom([]string{"append", "append", "append", "append", "replace", "replace", "delete", "delete", "delete", "clear", "count", "find"}).Draw(rt, "act")
+	if h.su.Kind == "mixed" && h.oneUnlinked && rapid.IntRange(0, 2).Draw(rt, "afterHasOneUnlink") == 0 {
+		s.Rel = rapid.SampledFrom([]string{"Boss", "Chief"}).Draw(rt, "clearRel")
+		s.Act = "clear"
+		r = relByName(s.Rel)
+	}
 	if allowUnscoped {
 		s.Unscoped = rapid.IntRange(0, 2).Draw(rt, "unscoped") == 0
 	}
@@ -1064,7 +1215,7 @@ func (h *hist) genStep(rt *rapid.T, allowUnscoped bool) (Step, stepInfo) {
 					}
 				}
 			default:
-				for p := range h.m.pairs {
+				for p := range h.m.pairs[r.Name] {
 					if p[1] == t {
 						holders = append(holders, p[0])
 					}
@@ -1132,6 +1283,10 @@ func (h *hist) genStep(rt *rapid.T, allowUnscoped bool) (Step, stepInfo) {
 		if v.New != "" {
 			h.newSeq++
 			v.New = fmt.Sprintf("n%d", h.newSeq)
+			if r.Str && s.Act != "delete" { // the caller chooses the key of a new string-keyed target
+				v.Code = codeOf(h.nextStr[r.Name])
+				h.nextStr[r.Name]++
+			}
 		} else {
 			usedBy[v.ID] = o
 		}
@@ -1185,7 +1340,7 @@ func (h *hist) genStep(rt *rapid.T, allowUnscoped bool) (Step, stepInfo) {
 
 // ---- the property ---------------------------------------------------------------------------------
 
-const ruleText = "C12: one history = saved owners 1..3 of one owner type carrying has-one (*T), has-many ([]T), polymorphic has-many, belongs-to (pointer key + *T, and value key + T) and many-to-many ([]*T) relations; " +
+const ruleText = "C12: one history = saved owners 1..3 of one owner type carrying has-one (*T), has-many ([]T), polymorphic has-many, belongs-to (pointer key + *T, and value key + T) and many-to-many ([]*T) relations, plus a has-many and a many-to-many whose targets have a STRING primary key (seeded keys go, GO, a_b, nil; new targets take Go, gO, A_B, NIL, ... so that keys differing only in letter case meet); " +
 	"4 saved targets per relation; links of database-only owners (and of Preload-ed in-memory owners) seeded with plain SQL before the first call; " +
 	"1-8 calls Append/Replace/Delete/Clear/Count/Find on db.Model(&owner).Association(rel) (single mode) or db.Model(&owners) (slice of 1-3 owner objects, []Owner or []*Owner, one argument per owner for Append/Replace), " +
 	"scoped or .Unscoped(), the history staying on one relation kind or mixing the five on the same object(s); values are fresh copies of saved targets (unlinked, linked to this owner, linked to another owner, twice in one call) or new unsaved targets (in Delete: an unsaved value that names no link), " +
@@ -1225,6 +1380,20 @@ func TestC12(t *testing.T) {
 				mode = "slice"
 			}
 			classes["kind:"+r.Kind] = true
+			// the shape of the (repaired) hasone-zero-pointer finding must keep being generated
+			if r.Kind == hasOne && (s.Act == "delete" || s.Act == "clear") {
+				h.oneUnlinked = true
+			}
+			if r.Kind == hasOne && (s.Act == "append" || s.Act == "replace") {
+				h.oneUnlinked = false
+			}
+			if r.Kind == belongsTo && s.Act == "clear" && h.oneUnlinked {
+				classes["shape:has-one-delete/clear-then-belongs-to-clear"] = true
+			}
+			if r.Str {
+				classes["key:string"] = true
+				classes["key:string/"+r.Kind+"/"+s.Act+"/"+mode] = true
+			}
 			classes["act:"+s.Act] = true
 			classes["scope:"+scope] = true
 			classes[r.Kind+"/"+s.Act+"/"+scope+"/"+mode] = true
@@ -1261,7 +1430,11 @@ func TestC12(t *testing.T) {
 		if su.Kind == "mixed" {
 			cl = append(cl, "history:mixed")
 		} else {
-			cl = append(cl, "history:"+relByName(su.Kind).Kind)
+			if relByName(su.Kind).Str {
+				cl = append(cl, "history:"+relByName(su.Kind).Kind+"+string-key")
+			} else {
+				cl = append(cl, "history:"+relByName(su.Kind).Kind)
+			}
 		}
 		if su.Preload {
 			cl = append(cl, "owner:preloaded")
